@@ -6,6 +6,7 @@
   -- API:
   --   Cx.Impl.Simd.Features                      { sse41, avx, avx2 : Bool }  = `cfg!(target_feature = …)` of the build
   --   Features.none / .sse41 / .avx / .avx2      the four builds of the correspondence (cxlib.VARIANTS)
+  --   Features.has, selectPath                  the module selected by an extracted dispatch table
   --   byte32 / bytes32 / ofBytes32, byte64 / bytes64 / ofBytes64   little-endian bytes of a lane
   --   pshufb16 src mask                          `_mm_shuffle_epi8` on one 128-bit lane (16 bytes)
   --   ShiftAlg, shiftTerms                       `srli`/`slli`/`v+v` terms combined by xor / or
@@ -28,6 +29,22 @@ def Features.avx2All : Features := ⟨true, true, true⟩
 
 /-- the four builds of the C16 correspondence, in the order of `cxlib.VARIANTS`: default, sse41, avx, avx2 -/
 def Features.builds : List Features := [Features.none, Features.sse41Only, Features.avxOnly, Features.avx2All]
+
+/-- `cfg!(target_feature = …)` by the feature code of the extracted dispatch tables: 1 sse4.1, 2 avx, 3 avx2 -/
+def Features.has (ft : Features) (code : Nat) : Bool :=
+  match code with
+  | 1 => ft.sse41
+  | 2 => ft.avx
+  | 3 => ft.avx2
+  | _ => false
+
+/-- the module a dispatch function selects: the extracted `[feature, module]` blocks
+    `#[cfg(target_feature = F)] { if HAS_F { return M::f(…) } }` are tried in source order, the fall-through is the
+    portable `reference` module (0); module codes 1 sse41, 2 avx, 3 avx2; 99 = malformed table -/
+def selectPath (ft : Features) : List (List Nat) → Nat
+  | [] => 0
+  | [f, m] :: rest => if ft.has f then m else selectPath ft rest
+  | _ :: _ => 99
 
 /-! ### bytes of lanes (x86 is little-endian: byte k of a lane is bits 8k … 8k+7) -/
 
